@@ -27,6 +27,11 @@ Theorem C03_compatible_symmetric : forall legacy l r b b',
   compatible l r legacy = Ok b -> compatible r l legacy = Ok b' -> b = b'.
 Proof. exact compatible_sym. Qed.
 
+(** a directional descriptor never pairs with one of its own direction, under both conventions *)
+Theorem C03_same_direction_never_pairs : forall legacy k t t', k = ">"%char \/ k = "<"%char ->
+  compatible (k :: t) (k :: t') legacy = Ok false.
+Proof. exact compatible_same_direction. Qed.
+
 Section C03.
   Variables (legacy : bool) (arom : Z -> bool) (edges : list (Z * Z * Z)) (s0 s1 : cstate) (bonds : list bond).
   (** base graph without self loops; per coarse node the atoms carrying descriptors are distinct *)
@@ -70,6 +75,7 @@ Qed.
 
 Print Assumptions C03_compatible_is_spec.
 Print Assumptions C03_compatible_symmetric.
+Print Assumptions C03_same_direction_never_pairs.
 Print Assumptions C03_only_across_base_edges.
 Print Assumptions C03_at_most_order.
 Print Assumptions C03_pair_compatible.
